@@ -167,12 +167,37 @@ impl DailyLogsUpdate {
             ",
         )?;
 
+        let mut delete_empty_stmt = conn.prepare_cached(
+            "
+            DELETE FROM _daily_log
+            WHERE
+                room_id = ? AND
+                entity = ? AND
+                date = ?
+            ",
+        )?;
+
         let mut rows = daily_log_stmt.query([])?;
 
         let mut previous_room: Uid = [0; 16];
         let mut previous_entity: String = "-".to_string();
+        // hashes of the previous day of the same room and entity, once there is one
+        let mut has_previous = false;
+        // a day that needs recompute has been found for the current room and entity
+        let mut recompute_started = false;
         let mut previous_hash: Option<Vec<u8>> = None;
         let mut previous_history: Option<Vec<u8>> = None;
+
+        fn chain(history: &Option<Vec<u8>>, daily: &Option<Vec<u8>>) -> Option<Vec<u8>> {
+            let mut hasher = blake3::Hasher::new();
+            if let Some(previous) = history {
+                hasher.update(previous);
+            }
+            if let Some(daily) = daily {
+                hasher.update(daily);
+            }
+            Some(hasher.finalize().as_bytes().to_vec())
+        }
 
         while let Some(row) = rows.next()? {
             let room: Uid = row.get(0)?;
@@ -183,29 +208,34 @@ impl DailyLogsUpdate {
             let daily_hash: Option<Vec<u8>> = row.get(4)?;
             let history_hash: Option<Vec<u8>> = row.get(5)?;
 
-            if !need_recompute {
-                if previous_room.eq(&room) && previous_entity.eq(&entity) {
-                    if let Some(previous) = &previous_history {
-                        let mut hasher = blake3::Hasher::new();
-                        hasher.update(previous);
-                        if let Some(daily) = &previous_hash {
-                            hasher.update(daily);
-                        }
-                        let hash = hasher.finalize().as_bytes().to_vec();
-                        // update
-                        update_history_stmt.execute((&hash, &room, &entity, date))?;
-                        previous_history = Some(hash);
-                    } else {
-                        previous_history = history_hash;
-                    }
-                    previous_hash = daily_hash;
-                } else {
-                    previous_hash = None;
-                    previous_history = None;
-                }
+            if !(previous_room.eq(&room) && previous_entity.eq(&entity)) {
+                //every room and entity has its own history
+                has_previous = false;
+                recompute_started = false;
+                previous_hash = None;
+                previous_history = None;
                 previous_room = room;
-                previous_entity = entity;
+                previous_entity = entity.clone();
+            }
+
+            if !need_recompute {
+                if recompute_started {
+                    //a previous day has changed, the history must be updated
+                    let hash = if has_previous {
+                        chain(&previous_history, &previous_hash)
+                    } else {
+                        daily_hash.clone()
+                    };
+                    update_history_stmt.execute((&hash, &room, &entity, date))?;
+                    previous_history = hash;
+                } else {
+                    //last valid day before the first day that needs recompute
+                    previous_history = history_hash;
+                }
+                previous_hash = daily_hash;
+                has_previous = true;
             } else {
+                recompute_started = true;
                 let mut comp_rows =
                     compute_stmt.query((&room, &entity, date, date_next_day(date)))?;
 
@@ -218,27 +248,27 @@ impl DailyLogsUpdate {
                     entry_number += 1;
                 }
 
-                let daily_hash = if hasher.count() == 0 {
-                    None
-                } else {
-                    let hash = hasher.finalize();
-                    Some(hash.as_bytes().to_vec())
-                };
+                if entry_number == 0 {
+                    //nothing is left for this day: the log is a function of the content, an empty day has no entry
+                    delete_empty_stmt.execute((&room, &entity, date))?;
+                    self.add_log(DailyLog {
+                        room_id: room,
+                        entity: entity.clone(),
+                        date,
+                        entry_number,
+                        daily_hash: None,
+                        history_hash: None,
+                        need_recompute: false,
+                    });
+                    continue;
+                }
 
-                let history_hash = if previous_room.eq(&room) {
-                    if let Some(previous) = &previous_history {
-                        let mut hasher = blake3::Hasher::new();
-                        hasher.update(previous);
-                        if let Some(daily) = &previous_hash {
-                            hasher.update(daily);
-                        }
-                        let hash = hasher.finalize().as_bytes().to_vec();
-                        Some(hash)
-                    } else {
-                        None
-                    }
+                let daily_hash = Some(hasher.finalize().as_bytes().to_vec());
+
+                let history_hash = if has_previous {
+                    chain(&previous_history, &previous_hash)
                 } else {
-                    //this is the first room date
+                    //this is the first date of the room and entity
                     daily_hash.clone()
                 };
 
@@ -262,8 +292,7 @@ impl DailyLogsUpdate {
                 });
                 previous_hash = daily_hash;
                 previous_history = history_hash;
-                previous_room = room;
-                previous_entity = entity;
+                has_previous = true;
             }
         }
         Ok(())
